@@ -38,12 +38,15 @@ def isFinite (bits : UInt64) : Bool := bits.toNat / 2 ^ 52 % 2048 ≠ 2047
 def isNaN (bits : UInt64) : Bool := bits.toNat / 2 ^ 52 % 2048 = 2047 ∧ bits.toNat % 2 ^ 52 ≠ 0
 def isNeg (bits : UInt64) : Bool := bits.toNat / 2 ^ 63 = 1
 
+/-- `10^x ≤ num/den` ? -/
+def geRatio (num den : Nat) (x : Int) : Bool :=
+  if x ≥ 0 then decide (num ≥ den * 10 ^ x.toNat) else decide (num * 10 ^ (-x).toNat ≥ den)
+
 /-- floor(log10(num/den)) for positive num, den -/
 def log10Floor (num den : Nat) : Int :=
   let x0 : Int := (decLen num : Int) - (decLen den : Int)
-  -- 10^x0 ≤ num/den ?
-  let ge (x : Int) : Bool := if x ≥ 0 then num ≥ den * 10 ^ x.toNat else num * 10 ^ (-x).toNat ≥ den
-  if ge (x0 + 1) then x0 + 1 else if ge x0 then x0 else if ge (x0 - 1) then x0 - 1 else x0 - 2
+  if geRatio num den (x0 + 1) then x0 + 1 else if geRatio num den x0 then x0
+  else if geRatio num den (x0 - 1) then x0 - 1 else x0 - 2
 
 /-- the `P` significant digits (as a number with exactly `P` digits) and the decimal exponent -/
 def sigDigits (P : Nat) (num den : Nat) : Nat × Int :=
